@@ -1,0 +1,57 @@
+//go:build verif
+
+package bloomsearch
+
+// Verification hooks, compiled only with the "verif" build tag. They let an
+// external harness observe (and, by blocking inside the callback, schedule)
+// the engine at its linearization points and at every filesystem mutation
+// boundary of FileSystemDataStore. With the tag off these calls compile to
+// empty inlinable functions (verif_off.go).
+
+// VerifPoint, when non-nil, is called at named points of the write path. The
+// callback runs on the calling goroutine while it still holds whatever lock
+// protects the state change the point names; it may block.
+var VerifPoint func(name string, a, b int64, ref any)
+
+func verifPoint(name string, a, b int64, ref any) {
+	if f := VerifPoint; f != nil {
+		f(name, a, b, ref)
+	}
+}
+
+// VerifFS, when non-nil, is called immediately before each filesystem
+// mutation of FileSystemDataStore (and once after a successful publish). A
+// non-nil return is reported by the store as that operation's failure.
+var VerifFS func(op, path string) error
+
+func verifFS(op, path string) error {
+	if f := VerifFS; f != nil {
+		return f(op, path)
+	}
+	return nil
+}
+
+// VerifSetFileNameDraw overrides the store's file-name draw (forced
+// collisions).
+func VerifSetFileNameDraw(fs *FileSystemDataStore, draw func() string) {
+	fs.drawFileName = draw
+}
+
+// VerifRequestInfo decodes the ref passed with ingest.* and actor.* points.
+func VerifRequestInfo(ref any) (rows []map[string]any, done chan error, forceFlush bool, ok bool) {
+	req, ok := ref.(*ingestRequest)
+	if !ok || req == nil {
+		return nil, nil, false, false
+	}
+	return req.rows, req.doneChan, req.forceFlush, true
+}
+
+// VerifFlushInfo decodes the ref passed with actor.enqueue*, flusher.recv and
+// flush.* points.
+func VerifFlushInfo(ref any) (done []chan error, partitions int, ok bool) {
+	req, ok := ref.(*flushRequest)
+	if !ok || req == nil {
+		return nil, 0, false
+	}
+	return req.doneChans, len(req.partitionBuffers), true
+}
